@@ -489,7 +489,11 @@ def oracle_c09(obs, rep, tier):
             if gen["panic"]:
                 m = re.search(r"in (compiler/[^\s,]+), line (\d+)", gen["stderr"])
                 where = f"{m.group(1)}:{m.group(2)}" if m else "unknown"
-                rep.violation(f"{fam}:panic:{where}", f"pavexc panicked on {spec['id']} at {where}", case)
+                # planted blueprints carry the rule and the kind of position that was planted: a panic site reached from ANOTHER kind of
+                # input is another finding (a recorded finding must not mask it)
+                pl = spec.get("plant") or {}
+                cls = f":{pl['rule']}:{str(pl.get('key') or pl.get('pos') or '').split(':')[0].split('@')[0]}" if pl.get("rule") else ""
+                rep.violation(f"{fam}:panic:{where}{cls}", f"pavexc panicked on {spec['id']} at {where}", case)
                 continue
             if gen["exit"] not in (0, 1):
                 rep.violation(f"{fam}:exit:{gen['exit']}", f"pavexc ended with status {gen['exit']} on {spec['id']}", case)
